@@ -172,6 +172,7 @@ def check(chk):
 
     _deferred_writes(chk, repo)
     _player_addressing(chk, repo)
+    _score_queue_adds(chk, repo)
 
     # ------------------------------------------------------------ FLOW-4
     n_f = 0
@@ -366,6 +367,20 @@ def _deferred_writes(chk, repo):
            construct=cc.ident, text="only part of a block list examined")
 
 
+def _score_queue_adds(chk, repo):
+    """BARRIER-1 (conservation): the score queue *adds* each digit to the player's variable and takes the same amount off the remaining
+    score -- it never overwrites what the player has accumulated."""
+    f = repo.func("mpf/devices/score_queue.py", "ScoreQueue._handle_score_queue")
+    chk.analysed(f)
+    ups = [x for x in walk_local(f.node) if isinstance(x, ast.AugAssign) and "game.player[" in src(x.target)]
+    downs = [x for x in walk_local(f.node) if isinstance(x, ast.AugAssign) and isinstance(x.target, ast.Name) and isinstance(x.op, ast.Sub)]
+    stores = [x for x in walk_local(f.node) if isinstance(x, ast.Assign) and any("game.player[" in src(t) for t in x.targets)]
+    ok = len(ups) == 1 and isinstance(ups[0].op, ast.Add) and len(downs) == 1 and src(ups[0].value) == src(downs[0].value) and not stores and \
+        src(ups[0].target).replace(" ", "") == "self.machine.game.player[self.name]"
+    chk.ob("BARRIER-1", "the score queue adds each digit to the player's own variable and takes exactly that off the remaining score", ok, f.where(),
+           detail="%s / %s" % ([src(x) for x in ups + stores], [src(x) for x in downs]), construct=f.ident, text="score queue conservation")
+
+
 def _player_addressing(chk, repo):
     """IDX-1: which player a write or a read addresses.  Config player numbers are 1-based, player_list is 0-based; without a
     number the current player is meant; machine actions never touch a player; both player-placeholder access paths agree."""
@@ -464,6 +479,7 @@ def battery():
         M("modes still bound to an old player are not re-bound at turn start", MC, "            if not mode.is_game_mode:\n                continue\n            mode.player = player", "            if not mode.is_game_mode or mode.player:\n                continue\n            mode.player = player", "DOM-22"),
         M("turn changes while a stopping mode is still bound", MC, "            if mode.auto_stop_on_ball_end:\n", "            if mode.auto_stop_on_ball_end and not mode.stopping:\n", "DOM-22"),
         M("twin: turn start loop with a positive test", MC, "            if not mode.is_game_mode:\n                continue\n            mode.player = player", "            if mode.is_game_mode:\n                mode.player = player", None),
+        M("score queue overwrites the player's score with the digit", "mpf/devices/score_queue.py", "                self.machine.game.player[self.name] += digit_score", "                self.machine.game.player[self.name] = digit_score", "BARRIER-1"),
     ]
 
 
